@@ -7,6 +7,7 @@ from gen import SeqGen
 from props.c20 import seg_table, FN_PARAMS
 
 ID = "C17"
+HEAP_SUMMARY = True      # end every program with the reference-level observation (BB.Model.Heap vs id() walk)
 LEAN_MODULE = "BB.Properties.C17"
 QUICK_N = 150
 THOROUGH_N = 3000
